@@ -13,8 +13,11 @@ CVC5 = "/usr/bin/cvc5"
 
 class Prover:
     def __init__(self, timeout_ms=60000, cvc5_timeout_s=120, use_cvc5=True, int_first=False,
-                 int_timeout_ms=20000, arrays=None, uf_first=False, uf_timeout_ms=10000):
+                 int_timeout_ms=20000, arrays=None, uf_first=False, uf_timeout_ms=10000, fresh_smt=False):
         self.timeout_ms = timeout_ms
+        # opt-in: hand cvc5 the ORIGINAL assertions (a z3 solver that answered 'unknown' may print its preprocessed
+        # goal -- renamed, sign-extensions as concat chains -- which defeats cvc5's bit-vectors-as-integers mode)
+        self.fresh_smt = fresh_smt
         self.uf_first = uf_first            # opt-in: try the obligation with * / % abstracted to uninterpreted functions first
         self.uf_timeout_ms = uf_timeout_ms
         self.arrays = arrays                # None = detect per query; False/True = declared by the harness
@@ -72,6 +75,10 @@ class Prover:
         self.stats["z3_unknown"] += 1
         if not self.use_cvc5 or arrays:
             return "unknown", None
+        if self.fresh_smt:
+            s = z3.SolverFor("QF_BV")
+            s.add(*pc)
+            s.add(z3.Not(c))
         for extra in (["--solve-bv-as-int=sum"], []):
             t0 = time.time()
             v, vals = run_cvc5(s, extra, self.cvc5_timeout_s)
